@@ -9,6 +9,7 @@
 #include <cstdio>
 #include <cstdlib>
 #include <cstring>
+#include <memory>
 #include <new>
 #include <regex>
 #include <string>
@@ -466,24 +467,25 @@ static bool more_probe(std::string const& op, Toks& in, Out& impl, Out& ref)
         return true;
     }
     if (op == "tostr") {
-        auto cap = in.num(); auto ty = in.str(); auto v = in.num();
+        // to_string<Cap>(value) for int / long / unsigned / unsigned long long
+        auto cap = in.num(); auto ty = in.str(); auto v = in.sz();
         auto digits = [](unsigned long long m) { int d = 1; while (m >= 10) { m /= 10; ++d; } return d; };
+        auto call = [&](auto x) {
+            if (cap == 0) { sink = static_cast<long long>(etl::to_string<0>(x).size()); } else if (cap == 1) { sink = static_cast<long long>(etl::to_string<1>(x).size()); }
+            else if (cap == 3) { sink = static_cast<long long>(etl::to_string<3>(x).size()); } else if (cap == 10) { sink = static_cast<long long>(etl::to_string<10>(x).size()); }
+            else { sink = static_cast<long long>(etl::to_string<20>(x).size()); }
+        };
         watch_none(impl, [&] {
-            if (ty == "int") {
-                auto x = static_cast<int>(v);
-                if (cap == 0) { sink = static_cast<long long>(etl::to_string<0>(x).size()); } else if (cap == 1) { sink = static_cast<long long>(etl::to_string<1>(x).size()); }
-                else if (cap == 3) { sink = static_cast<long long>(etl::to_string<3>(x).size()); } else if (cap == 10) { sink = static_cast<long long>(etl::to_string<10>(x).size()); }
-                else { sink = static_cast<long long>(etl::to_string<20>(x).size()); }
-            } else {
-                auto x = static_cast<long long>(v);
-                if (cap == 0) { sink = static_cast<long long>(etl::to_string<0>(x).size()); } else if (cap == 1) { sink = static_cast<long long>(etl::to_string<1>(x).size()); }
-                else if (cap == 3) { sink = static_cast<long long>(etl::to_string<3>(x).size()); } else if (cap == 10) { sink = static_cast<long long>(etl::to_string<10>(x).size()); }
-                else { sink = static_cast<long long>(etl::to_string<20>(x).size()); }
-            }
+            if (ty == "int") { call(static_cast<int>(v)); }
+            else if (ty == "long") { call(static_cast<long>(v)); }
+            else if (ty == "uint") { call(static_cast<unsigned>(v)); }
+            else { call(static_cast<unsigned long long>(v)); }
         });
-        long long val = ty == "int" ? static_cast<long long>(static_cast<int>(v)) : v;
-        unsigned long long mag = val < 0 ? 0ULL - static_cast<unsigned long long>(val) : static_cast<unsigned long long>(val);
-        int len = digits(mag) + (val < 0 ? 1 : 0);
+        bool neg = false; unsigned long long mag = v;
+        if (ty == "int") { auto x = static_cast<long long>(static_cast<int>(v)); neg = x < 0; mag = neg ? 0ULL - static_cast<unsigned long long>(x) : static_cast<unsigned long long>(x); }
+        else if (ty == "long") { auto x = static_cast<long long>(v); neg = x < 0; mag = neg ? 0ULL - static_cast<unsigned long long>(x) : static_cast<unsigned long long>(x); }
+        else if (ty == "uint") { mag = static_cast<unsigned>(v); }
+        int len = digits(mag) + (neg ? 1 : 0);
         doc(ref, len <= cap);
         return true;
     }
@@ -506,6 +508,8 @@ static bool more_probe(std::string const& op, Toks& in, Out& impl, Out& ref)
                 if (o == "idx") { watch(impl, a0, [&] { sink = a0[0]; }); } else { watch(impl, a0, [&] { sink = static_cast<etl::array<int, 0> const&>(a0)[0]; }); }
 #else
                 impl.tok("skip");   // not executed: etl::unreachable() without the SAFE check (see KF-C05-array-index-only-checked-in-safe-mode)
+                ref.tok("na");
+                return true;
 #endif
             }
             else if (o == "front") { watch(impl, a0, [&] { sink = a0.front(); }); }
@@ -543,9 +547,8 @@ static bool more_probe(std::string const& op, Toks& in, Out& impl, Out& ref)
 
 bool vh::run_case(std::string const& op, Toks& in, Out& impl, Out& ref)
 {
-    // every probe names the check that fires (expression text) except the vector families, whose model (C01) has a
-    // single Contract outcome
-    probe::with_expr = !(op == "vec" || op == "vec0" || op == "vecnt" || op == "ivec");
+    // every probe names the check that fires (header + expression text)
+    probe::with_expr = true;
     if (op == "str") { return str_probe(in, impl, ref); }
     if (op == "wstr") { return wstr_probe(in, impl, ref); }
     if (op == "sset" || op == "cpy" || op == "linalg" || op == "sstride" || op == "bsstr" || op == "tostr" || op == "fmt" || op == "exparrow" || op == "arrfb") { return more_probe(op, in, impl, ref); }
@@ -565,7 +568,10 @@ bool vh::run_case(std::string const& op, Toks& in, Out& impl, Out& ref)
     }
     if (op == "span") {
         auto n = in.num(); auto o = in.str(); auto a = in.sz(); auto b = in.sz();
-        int data[8] = {10, 11, 12, 13, 14, 15, 16, 17};
+        // exact-size heap allocation: under ASan a read one past the n elements (before the check) is a report
+        std::unique_ptr<int[]> heap(new int[static_cast<std::size_t>(n)]);
+        int* data = heap.get();
+        for (long long i = 0; i < n; ++i) { data[i] = 10 + static_cast<int>(i); }
         etl::span<int> s(data, static_cast<std::size_t>(n));
         u64 sz = static_cast<u64>(n);
         watch(impl, s, [&] {
@@ -586,7 +592,9 @@ bool vh::run_case(std::string const& op, Toks& in, Out& impl, Out& ref)
     }
     if (op == "sv") {
         auto n = in.num(); auto o = in.str(); auto a = in.sz(); auto b = in.sz();
-        char const* text = "abcdefgh";
+        std::unique_ptr<char[]> heap(new char[static_cast<std::size_t>(n)]);   // exact size, no terminator (see span)
+        char* text = heap.get();
+        for (long long i = 0; i < n; ++i) { text[i] = static_cast<char>('a' + i); }
         etl::string_view s(text, static_cast<std::size_t>(n));
         u64 sz = static_cast<u64>(n);
         char dest[16];
